@@ -53,6 +53,21 @@ FACTS = [
      r"const REQUEST_BODY_LOW_LIMIT_SIZE\s*:\s*usize\s*=\s*([0-9_ *]+);", "prod", 102400, ["C15", "C14", "C01"]),
     ("requestBodyLargeFactor", "proxy_agent/src/proxy/proxy_server.rs",
      r"const REQUEST_BODY_LARGE_LIMIT_SIZE\s*:\s*usize\s*=\s*([0-9_ *]+)\*\s*REQUEST_BODY_LOW_LIMIT_SIZE\s*;", "prod", 1024, ["C15"]),
+    # C12: where the key text can enter an error text. kind "count" = number of matches over the listed files (test modules cut off)
+    ("computeSignatureCallSites", ["proxy_agent/src/common/hyper_client.rs", "proxy_agent/src/proxy/proxy_server.rs", "proxy_agent/src/key_keeper.rs",
+                                   "proxy_agent/src/key_keeper/key.rs", "proxy_agent/src/provision.rs", "proxy_agent/src/proxy_agent_status.rs",
+                                   "proxy_agent/src/host_clients/wire_server_client.rs", "proxy_agent/src/host_clients/imds_client.rs",
+                                   "proxy_agent/src/telemetry/event_reader.rs", "proxy_agent/src/proxy/proxy_connection.rs"],
+     r"compute_signature\s*\(", "count", 2, ["C12"]),
+    ("hexKeyWithheldSites", ["proxy_agent/src/common/hyper_client.rs", "proxy_agent/src/proxy/proxy_server.rs"],
+     r"Error::Hex\(\s*_\s*,\s*e\s*\)\s*=>\s*Error::Hex\(\s*\"<withheld>\"", "count", 2, ["C12"]),
+    ("acquireBodyWithheld", ["proxy_agent/src/key_keeper/key.rs"],
+     r"read_response_body\(response\)\s*\.await\s*\.map_err\(\|e\|\s*match e\s*\{\s*Error::Hyper\(HyperErrorType::Deserialize\(_\)\)\s*=>", "count", 1, ["C12"]),
+    ("keyReadResponseBodySites", ["proxy_agent/src/key_keeper/key.rs"], r"read_response_body\s*\(", "count", 1, ["C12"]),
+    ("keyDirMode", "proxy_agent/src/acl/linux_acl.rs", r"fs::Permissions::from_mode\(\s*0o([0-7]+)\s*\)", "oct", 0o700, ["C12"]),
+    ("keyStructDerivesDebug", ["proxy_agent/src/key_keeper/key.rs"],
+     r"#\[derive\([^\]]*Debug[^\]]*\)\]\s*(?:#\[[^\]]*\]\s*)*pub struct Key\s*\{", "count", 0, ["C12"]),
+    ("keyStructImplsDisplay", ["proxy_agent/src/key_keeper/key.rs"], r"impl\s+(?:std::fmt::)?(?:Display|Debug)\s+for\s+Key\s*\{", "count", 0, ["C12"]),
 ]
 
 # structural anchors: pattern must be present (count >= 1); no value
@@ -80,6 +95,8 @@ def parse_value(kind, text):
         return text
     if kind == "hex":
         return int(text, 16)
+    if kind == "oct":
+        return int(text, 8)
     if kind == "prod":
         v = 1
         for part in text.replace("_", "").split("*"):
@@ -90,7 +107,7 @@ def parse_value(kind, text):
 
 
 def lean_value(kind, v):
-    if kind in ("nat", "prod", "hex"):
+    if kind in ("nat", "prod", "hex", "oct"):
         return "Nat", str(v)
     if kind == "str":
         return "String", json.dumps(v)
@@ -117,6 +134,19 @@ def extract(extra_facts=None):
         return cache[rel]
 
     for name, rel, rx, kind, default, props in FACTS + (extra_facts or []):
+        if kind == "count":
+            total = 0
+            bad = False
+            for r in rel:
+                src = load(r)
+                if src is None:
+                    problems.append({"fact": name, "file": r, "why": "file unreadable", "props": props})
+                    bad = True
+                    continue
+                cut = src.find("#[cfg(test)]")
+                total += len(re.findall(rx, src if cut < 0 else src[:cut], flags=re.S))
+            facts[name] = {"kind": "nat", "value": default if bad else total, "default": default, "file": ",".join(rel), "props": props}
+            continue
         src = load(rel)
         val = default
         if src is None:
